@@ -256,6 +256,7 @@ def run(ctx, for_simplifier=False):
     c01.r014(ctx)
     c01.r015(ctx)
     c01.r016(ctx)
+    c01.r017(ctx)
 
 
 def fmt(key):
